@@ -228,23 +228,26 @@ class FieldData:
             v = v + mpc(0, 1) * poly_eval((salt, key, "im"), point, degree)
         return v
 
-    def reference_value(self, fkey, element, cell, side, Xjets, xjets, imag_ok=True):
-        """Reference value (object array of element.reference_value_shape) at the jets point."""
+    def reference_value(self, fkey, element, cell, side, Xjets, xjets, imag_ok=True, shift=0):
+        """Reference value (object array of element.reference_value_shape) at the jets point.
+
+        shift: offset added to the component number in the data key (a sub-space argument of a block
+        denotes the components shift.. of the mixed argument it was split from).
+        """
         rs = tuple(element.reference_value_shape)
         n = element.reference_value_size
         flat = np.empty((n,), dtype=object)
-        any_piola = any(pullback_kind(l) != "IdentityPullback" for l, _, _ in leaves(element))
         for leaf, off, size in leaves(element):
             deg = leaf.embedded_superdegree
             deg = 0 if deg is None else min(int(deg), self.max_degree)
             ident = pullback_kind(leaf) == "IdentityPullback"
             for r in range(size):
-                if ident and not any_piola:
+                if ident:
                     # physical polynomial, shared by both sides (continuity of H1 data)
-                    flat[off + r] = self._poly((fkey, off + r, "phys"), list(xjets), deg, imag_ok)
+                    flat[off + r] = self._poly((fkey, shift + off + r, "phys"), list(xjets), deg, imag_ok)
                 else:
                     flat[off + r] = self._poly(
-                        (fkey, off + r, "ref", side), list(Xjets), deg, imag_ok
+                        (fkey, shift + off + r, "ref", side), list(Xjets), deg, imag_ok
                     )
         m = self.scale.get(fkey)
         if m is not None:
